@@ -166,7 +166,7 @@ pub fn worker_case(case: &Value, dir: &Path) -> Value {
     let sentinel = dir.join("sentinel");
     std::env::set_current_dir(&cwd).unwrap();
 
-    let n_steps = if shape == "S1" || shape == "S4" { 1 } else { 2 };
+    let n_steps = if shape == "S1" || shape == "S4" || shape == "S5" { 1 } else { 2 };
     let step_names: Vec<String> = (0..n_steps).map(|i| format!("s{i}")).collect();
     let first = 0usize;
     let last = n_steps - 1;
@@ -215,11 +215,17 @@ pub fn worker_case(case: &Value, dir: &Path) -> Value {
             world::write(&links, &world::link_file(name, k.b), "{ not json");
         }
     }
-    let n_insp = if shape == "S2" { 2 } else { 1 };
+    let n_insp = if shape == "S2" || shape == "S5" { 2 } else { 1 };
     let inspections: Vec<Inspection> = (0..n_insp)
         .map(|i| {
-            // S4: the inspection carries the name of the (only) step
-            let name = if shape == "S4" { "s0".to_string() } else { format!("i{i}") };
+            // S4: the inspection carries the name of the (only) step; S5: both inspections share a name
+            let name = if shape == "S4" {
+                "s0".to_string()
+            } else if shape == "S5" {
+                "dup".to_string()
+            } else {
+                format!("i{i}")
+            };
             if i == cmd_pos {
                 inspection(&name, cmd, rule, &sentinel)
             } else {
@@ -301,9 +307,9 @@ fn write_sublayout(links: &Path, step: &str, faults: &[String], sentinel: &Path,
 
 fn gen_cases(tier: Tier) -> Vec<Value> {
     let mut cases = vec![];
-    let shapes: &[&str] = &["S1", "S2", "S3", "S4"];
+    let shapes: &[&str] = &["S1", "S2", "S3", "S4", "S5"];
     for shape in shapes {
-        let n_insp = if *shape == "S2" { 2 } else { 1 };
+        let n_insp = if *shape == "S2" || *shape == "S5" { 2 } else { 1 };
         // bound 0: no fault, all commands x rules x command position
         for cmd in COMMANDS {
             for rule in RULES {
@@ -364,7 +370,13 @@ fn judge(acc: &mut Acc, case: &Value, out: &Value) {
     }
     let outer_faults: Vec<&String> = faults.iter().filter(|f| !f.starts_with("inner:")).collect();
     let inner_faults: Vec<&String> = faults.iter().filter(|f| f.starts_with("inner:")).collect();
-    let outer_insp: Vec<String> = (0..if shape == "S2" { 2 } else { 1 }).map(|i| if shape == "S4" { "s0".to_string() } else { format!("i{i}") }).collect();
+    let outer_insp: Vec<String> = (0..if shape == "S2" { 2 } else { 1 })
+        .map(|i| match shape {
+            "S4" => "s0".to_string(),
+            "S5" => "dup".to_string(),
+            _ => format!("i{i}"),
+        })
+        .collect();
     acc.outcome(&format!(
         "{}|{}|sentinel:{}",
         if faults.is_empty() { "no-fault" } else { "fault" },
@@ -492,7 +504,7 @@ pub fn run(tier: Tier) -> i32 {
         }
     }
     c.acc = acc;
-    c.rule = "state = choice vector (shape in {1 step+1 inspection, 2 steps+2 inspections, delegated step whose sub-layout has its own inspection, 1 step + 1 inspection carrying the step's name}, injected fault set, inspection command, inspection rule); transitions = choices made; each vector is one execution of in_toto_verify in a private cwd; non-trivial = a fault is injected, or the command fails, or the rule is violated".into();
+    c.rule = "state = choice vector (shape in {1 step+1 inspection, 2 steps+2 inspections, delegated step whose sub-layout has its own inspection, 1 step + 1 inspection carrying the step's name, 1 step + 2 inspections sharing one name}, injected fault set, inspection command, inspection rule); transitions = choices made; each vector is one execution of in_toto_verify in a private cwd; non-trivial = a fault is injected, or the command fails, or the rule is violated".into();
     c.bound_completed = if tier.thorough() {
         "all vectors with 0 faults (all commands x rules x positions), 1 fault (all commands), 2 simultaneous faults".into()
     } else {
